@@ -51,6 +51,9 @@ PROPS = {
     "C09": dict(pkg="c09", level="exploration",
                 quick=[R(checks=1200)],
                 thorough=[R(checks=6000, shards=16, timeout=1500)]),
+    "C11": dict(pkg="c11", level="exploration",
+                quick=[R(checks=6000)],
+                thorough=[R(checks=60000, shards=16, timeout=1500)]),
 }
 
 ASSUMPTIONS = {
